@@ -97,6 +97,9 @@ def prefix_ops(name, pts):
         return run1 + _each(pts, lambda i: _msg(i, 'xx', 1)) + [L], 1
     if name == 'SUCC':
         return run1 + _each(pts, lambda i: _msg(i, 'succeeded', 1)) + [L], 1
+    if name == 'Rfq':            # running, the job's "failed" already queued: with retries=E the probes that are
+        # received messages are processed in the same batch AFTER it, i.e. while the task waits for its retry
+        return run1 + _each(pts, lambda i: _msg(i, 'failed', 1)), 1
     if name in ('F', 'Wr'):      # with retries=E the same ops end in waiting (retry lined up)
         return run1 + _each(pts, lambda i: _msg(i, 'failed', 1)) + [L], 1
     if name in ('SF', 'Wsr'):    # with retries=S the same ops end in waiting (submit retry lined up)
@@ -128,7 +131,7 @@ def prefix_ops(name, pts):
 
 PREFIXES = [
     ('W0', ''), ('P', ''), ('S', ''), ('R', ''), ('Rx', ''), ('SUCC', ''), ('F', ''), ('SF', ''), ('ES', ''),
-    ('Wr', 'E'), ('P2', 'E'), ('S2', 'E'), ('ES2', 'E'), ('R2', 'E'), ('F2', 'E'),
+    ('Wr', 'E'), ('Rfq', 'E'), ('P2', 'E'), ('S2', 'E'), ('ES2', 'E'), ('R2', 'E'), ('F2', 'E'),
     ('Wsr', 'S'), ('P2s', 'S'), ('SF2', 'S'), ('R2s', 'S'),
 ]
 
@@ -325,6 +328,8 @@ class C09(MsgProp):
         'CylcModel.C09.implied_outputs_run',
         'CylcModel.C09.lifecycle_run',
         'CylcModel.C09.vacation_step',
+        'CylcModel.C09.retry_pending_ignored',
+        'CylcModel.C09.retry_pending_ignored_sched',
     ]
     statement_note = (
         'partial proof. Component (Msg.step = TaskEventsManager.process_message on one task proxy: output completion, '
@@ -337,10 +342,11 @@ class C09(MsgProp):
         'running; lifecycle_counterexample_received: started after submit-failed is accepted); proved is '
         'lifecycle_partial / lifecycle_trace: outside the explicit decidable set Msg.Deviant (polled or internal '
         'message behind the status; job message after submit-failed/expired; succeeded after failed; a repeated '
-        'failure event of a finished task with a retry left - unreachable) every message, and every consecutive pair '
+        'failure event of a finished task with a retry left - unreachable) a job event for a waiting task that is not sitting out a retry - no job exists) every message, and every consecutive pair '
         'of a delivery trace, moves the status forward along the lifecycle (stages may be skipped forward) or back to '
         'waiting from preparing/submitted/running on a failure event with a retry left, advancing that retry counter '
-        'by one. Scheduler lift: processMessage_is_step - for every instance graph without self-children (decidable '
+        'by one; retry_pending_ignored(_sched): a task waiting for its automatic retry (submit number of the failed job, a retry '
+        'consumed) drops every message of any flag - Msg.step and the whole Sched state unchanged. Scheduler lift: processMessage_is_step - for every instance graph without self-children (decidable '
         'noSelfChild, checked by the driver on every extracted graph), every state and message, Sched.processMessage '
         'changes the addressed proxy (or transient object) exactly as Msg.step and requests the same poll, whatever '
         'spawning, suicide triggers, completion removal, parentless spawning and DB history do around it (given no '
@@ -368,8 +374,9 @@ class C09(MsgProp):
         '(outputs_monotone_run covers them too)')
     technique = ('case analysis over the message step function, simulation of Sched.processMessage by it, inductive '
                  'invariants over delivery lists + enumerated and generated trace correspondence with the real Scheduler')
-    rule = ('component enumeration: 19 reachable message states (status x outputs x try state, incl. second tries and '
-            'started-before-submitted) x up to 39 probes (internal submit results, received messages of the same / older / '
+    rule = ('component enumeration: 20 reachable message states (status x outputs x try state, incl. second tries and '
+            'started-before-submitted, and waiting for the automatic retry with the failed job\'s duplicates / late messages / '
+            'poll results arriving: polled and internal ones at once, received ones in the same message batch) x up to 39 probes (internal submit results, received messages of the same / older / '
             'newer submit number for 9 message kinds incl. failures with a run signal (failed/ERR, aborted/...), polled '
             'results incl. signal kills, a job vacation and those of the previous job; the 19 current-job probes run in every tier), one probe per task '
             'instance of a one-cycle workflow in the real scheduler (thorough: pairs of probes); plus generated workflows '
